@@ -10,6 +10,7 @@ import setupsim as S
 
 
 MS_PLAIN, MS_DIRECTED, REFS, NEIGHBOURS = 40, 24, 36, 30      # quick-tier sizes of the families added in round 5
+SESSIONS, SHARED_TABLE = 40, 24                               # ... in round 6
 
 
 def gen_scenario(rng):
@@ -355,6 +356,113 @@ def oracle_ms(ctx, s, res):
             return
 
 
+def designation_clause(ctx, s, res, case):
+    """each product at the version the resolution order designates, stated for the plainest case: a product that is not
+    set up when the request starts, that the request (if it names it) names without a version, and that every table
+    line names bare, is set up at its current version - whatever the process did before the request (no --keep, no tag
+    option on the request: the shipped order ends with current)"""
+    for rec in res["records"]:
+        rq = rec["request"]
+        if not rec["ok"] or not rq.get("fwd", True) or rq.get("keep") or rq.get("tag"):
+            continue
+        before, after = S.setup_records(rec["before"]), S.setup_records(rec["after"])
+        for n, v in zip(rec["decision_names"], rec["decisions"]):
+            if v is None or n in before or (n == rq["name"] and rq.get("version")) or not S.bare_only(res, n):
+                continue
+            cur = [k.split(" ")[1] for k, info in res["parsed"].items() if k.split(" ")[0] == n and "current" in info["tags"]]
+            if len(cur) != 1:
+                continue
+            ctx.bump("designation-clause:bare-look-ups-evaluated")
+            if v != cur[0] or after.get(n) not in (None, cur[0]):       # (None: an optional branch that failed further down)
+                ctx.fail("designated-version", case, expected={n: cur[0]}, observed={n: after.get(n), "decided": v},
+                         what="request %d (setup %s): %s was not set up beforehand and is asked for without a version; "
+                              "the resolution order designates the current version %s, the version decided on is %s and "
+                              "the version set up is %s" % (res["records"].index(rec) + 1, rq["name"], n, cur[0], v, after.get(n)))
+                return True
+    return False
+
+
+def oracle_session(ctx, s, res, fresh):
+    """requests served by ONE long-lived Eups instance: the clauses of the property on every request of the session (the
+    environment a request starts from is the one the previous request left), the designation clause, and - the property
+    speaks of the request and the prior environment, not of what the instance served before - the same outcome as a
+    fresh instance gives for the same request from the same environment"""
+    case = {"world": s["world"], "requests": s["requests"], "env0": s["env0"], "session": True}
+    ctx.bump("session:requests-on-one-instance-%d" % len(s["requests"]))
+    if any(not q.get("fwd", True) for q in s["requests"][:-1]):
+        ctx.bump("session:with-an-unsetup-in-between")
+    for i in range(1, len(res["records"]) + 1):
+        sub = dict(res, records=res["records"][:i])
+        n = len(ctx.failures)
+        if i == len(res["records"]):
+            oracle(ctx, s, sub)
+        elif res["records"][i - 1]["ok"]:
+            oracle_quiet(ctx, s, sub)
+        if len(ctx.failures) > n:
+            ctx.failures[-1]["input"]["session"] = True
+            return
+    if designation_clause(ctx, s, res, case):
+        return
+    for i, (a, b) in enumerate(zip(res["records"], fresh["records"])):
+        if a["before"] != b["before"]:
+            break
+        ctx.bump("session:requests-compared-with-a-fresh-instance")
+        if (a["ok"], a["decisions"], a["after"]) != (b["ok"], b["decisions"], b["after"]):
+            diff = {k: (b["after"].get(k), a["after"].get(k)) for k in set(a["after"]) | set(b["after"])
+                    if a["after"].get(k) != b["after"].get(k)}
+            ctx.fail("instance-history", case, expected={"ok": b["ok"], "decisions": b["decisions"]},
+                     observed={"ok": a["ok"], "decisions": a["decisions"], "env_diff(fresh,session)": diff},
+                     what="request %d (%s %s) from the same environment: an instance that served the earlier requests "
+                          "decides %r, a fresh instance decides %r" % (i + 1, "setup" if a["request"].get("fwd", True) else "unsetup",
+                                                                      a["request"]["name"], a["decisions"], b["decisions"]))
+            return
+
+
+def oracle_quiet(ctx, s, res):
+    """the clauses of oracle on the last record of res, without the histogram count (a prefix of a session)"""
+    count = ctx.count
+    ctx.count = lambda *a, **k: None
+    try:
+        oracle(ctx, s, res)
+    finally:
+        ctx.count = count
+
+
+def oracle_shared(ctx, s, res):
+    """one table file for several versions: what the table gives each version is read off the generator's text by hand
+    (PRODUCT_DIR, PRODUCT_VERSION of THAT version), not taken from the parser: every set-up version has its own
+    contributions, nothing of a version that is not set up is left; then the clauses of oracle"""
+    rec = res["records"][-1]
+    case = {"world": s["world"], "requests": s["requests"], "env0": s["env0"]}
+    if rec["ok"]:
+        after = rec["after"]
+        sa = S.setup_records(after)
+        dirs = S.product_dirs(res)
+        for name in s["world"].get("shared_tables", ()):
+            ctx.bump("shared-table:requests-evaluated")
+            if S.setup_records(rec["before"]).get(name) not in (None, sa.get(name)):
+                ctx.bump("shared-table:a-version-replaced-by-another-of-the-same-file")
+            for v in s["world"]["products"][name]:
+                paths, sets = S.shared_table_contributions(s["world"], name, v, dirs[(name, v)])
+                if sa.get(name) == v:
+                    miss = [(var, el) for var, el in paths if el not in (after.get(var) or "").split(":")] + \
+                           [(var, val) for var, val in sets.items() if after.get(var) != val]
+                    if miss:
+                        ctx.fail("own-contributions", case, expected=S.strip_stack(res, json.dumps(miss)), observed=S.strip_stack(res, json.dumps({var: after.get(var) for var, _ in miss})),
+                                 what="%s %s is set up; its table (one file for all versions of %s, expanded for this version) "
+                                      "contributes %s" % (name, v, name, S.strip_stack(res, json.dumps(miss[:3]))))
+                        return
+                else:
+                    left = [(var, el) for var, el in paths if el in (after.get(var) or "").split(":")] + \
+                           [(var, val) for var, val in sets.items() if after.get(var) == val and
+                            (dirs[(name, v)] in val)]
+                    if left:
+                        ctx.fail("residue", case, expected="nothing of %s %s" % (name, v), observed=S.strip_stack(res, json.dumps(left)),
+                                 what="%s %s is not set up (set up: %s) but %s is still there" % (name, v, sa.get(name), S.strip_stack(res, json.dumps(left[:3]))))
+                        return
+    oracle(ctx, s, res)
+
+
 def m_dep_variable_after_dependency(f):
     """known finding D61: see setupsim.m_dep_variable_residue"""
     return S.m_dep_variable_residue(f)
@@ -383,7 +491,11 @@ def run(ctx):
                 "earlier line in envSet and - findings D60 / D61 - in path commands; list-valued variables of the user's "
                 "environment in the forms ${V}, $?{V}, ${V-default}) with the owner's and the dependency's version being "
                 "replaced; neighbours (names in a prefix relation, -j on table lines, the exact block of an expanded "
-                "table, a product below the request set up beforehand with its own dependencies); non-trivial = the "
+                "table, a product below the request set up beforehand with its own dependencies); sessions of 2-5 requests "
+                "served by ONE long-lived Eups instance (selectVRO + Eups.setup per request; an explicit set-up, an unsetup, "
+                "then a request that meets the product again bare - as a dependency or at the top level, D63), every "
+                "session also run with one instance per request; products whose versions are declared with ONE table "
+                "file named by an absolute path (declare -m), one version replaced by another; non-trivial = the "
                 "final request succeeds; distinct = distinct (world, requests)")
     ctx.trusted_base = common.COMMON_TRUSTED + [
         "two model runs per request: Model/Setup.v fed with the decisions of the real resolver (captured by a spy), and "
@@ -404,7 +516,10 @@ def run(ctx):
         "of one key) and relational expressions with alternatives over them; the declarations reach the model in the "
         "listing order of Database.findProducts (version names sorted as strings)",
         "harness/setupsim.py line_infos / model_line_full: encoding of processArgs results and product tags"]
-    ctx.assumptions = ["declared products only (no setup -r, no --force); the theorems of the one-stack model and their "
+    ctx.assumptions = ["sessions on one instance: Model/SetupSession.v (the code after the repair of D63), "
+                       "session_on_one_instance_is_memoryless; the session oracle adds the designation clause for bare "
+                       "look-ups (current) and the same-outcome-as-a-fresh-instance comparison",
+                       "declared products only (no setup -r, no --force); the theorems of the one-stack model and their "
                        "ms_ counterparts for several stacks (closure clause: one stack; several stacks by the tie and "
                        "the designation oracle for look-ups by relational expression)",
                        "table values that refer to other variables are outside WF (wf_path / wf_set: values free of "
@@ -420,7 +535,7 @@ def run(ctx):
                        "WF2 of Proofs/SetupInv.v for the theorems (contributions of different names and versions apart, "
                        "acyclic dependency graph over names, single-word names and versions)"]
     ctx.check_theorems()
-    scenarios = [c for c in S.corpus("C01") if not S.is_ms(c["world"])] + [gen_scenario(ctx.rng) for _ in range(ctx.size(150, 3000))]
+    scenarios = [c for c in S.corpus("C01") if not S.is_ms(c["world"]) and not c.get("session")] + [gen_scenario(ctx.rng) for _ in range(ctx.size(150, 3000))]
     for s in scenarios[:3]:
         ctx.sample({"requests": s["requests"], "env0": s["env0"], "products": s["world"]["products"]})
     for i in range(0, len(scenarios), 400):
@@ -460,10 +575,27 @@ def run(ctx):
         S.run_scenarios(ctx, refs[i:i + 400], oracle)
 
 
+    # round 6.  ONE long-lived Eups instance serving 2-4 requests (per-instance tables such as alreadySetupProducts must
+    # not outlive a request): each session is also run with one instance per request; and products whose versions share
+    # ONE table file named by an absolute path (declare -m): the table is expanded per product
+    sessions = [c for c in S.corpus("C01") if c.get("session")] + [S.gen_scenario_session(ctx.rng) for _ in range(ctx.size(SESSIONS, 900))]
+    shared = [S.gen_scenario_shared_table(ctx.rng) for _ in range(ctx.size(SHARED_TABLE, 600))]
+    for sc in sessions + shared:
+        ctx.bump("family:" + sc["world"]["family"])
+    for sc in sessions:
+        sc["session"] = True
+    S.run_scenarios_session(ctx, sessions, oracle_session)
+    S.run_scenarios(ctx, shared, oracle_shared)
+
+
 def replay(ctx, path):
     ctx.matchers["c01.dep_variable_after_dependency"] = m_dep_variable_after_dependency
     obj = json.load(open(path))
-    if S.is_ms(obj["input"]["world"]):
+    if obj["input"].get("session"):
+        S.run_scenarios_session(ctx, [obj["input"]], oracle_session)
+    elif obj["input"]["world"].get("shared_tables"):
+        S.run_scenarios(ctx, [obj["input"]], oracle_shared)
+    elif S.is_ms(obj["input"]["world"]):
         S.run_scenarios_ms(ctx, [obj["input"]], oracle_ms)
     else:
         S.run_scenarios(ctx, [obj["input"]], oracle)
